@@ -1,0 +1,19 @@
+//go:build verif
+// +build verif
+
+package network
+
+import "com.tuntun.rangers/node/src/middleware/log"
+
+// Verification hook H10: hand one node-to-node message to the worker
+// connection's dispatcher (WorkerConn.handleMessage), as the receive loop does.
+func VerifWorkerHandleMessage(code uint32, body []byte, from string, logger log.Logger) error {
+	data, err := marshalMessage(Message{Code: code, Body: body})
+	if err != nil {
+		return err
+	}
+	w := &WorkerConn{}
+	w.logger = logger
+	w.handleMessage(data, from)
+	return nil
+}
